@@ -7,7 +7,8 @@ proved over the translation of server/protocol.py.  This translator regenerates,
   server/middleware.py   every @dataclass (RateLimitConfig, AccessControlConfig, CertificateAuthPathRule,
                          CertificateAuthConfig) as a Record py_<C>; every class with an `async def process_request` of the
                          Middleware signature (other than the Protocol itself and the chain class) as one constructor
-                         `Mw_<C> (<__init__ parameters>)` of `Inductive mwkind`; MiddlewareChain as a record with its
+                         `Mw_<C> (<__init__ parameters>)` of `Inductive mwkind` (with `mwclass`, `class_of`: the class
+                         tag of an object); MiddlewareChain as a record with its
                          __init__ (py2coq_mw.gen_init_class).
   server/config.py       `Record py_ServerConfig` with the fields the translated code reads, and
                          get_rate_limit_config / get_access_control_config / get_certificate_auth_config as functions
@@ -183,11 +184,14 @@ class W(Fn):
         self.path = []              # enclosing (condition text, branch)
         self.rows = {}              # lineno -> factory row
         self.attr_params = []       # (name, base type, result type)
-        self.escaped = set()        # lists stored into an object
+        self.escaped = {}           # list stored into an object -> line of the call (translation order is not program order: compare lines)
         self.lambdas = []           # (lineno, free names)
         self.roles = {}             # H C U X S -> type
         self.ret_type = spec.get("ret_type")
         self.final = spec.get("final")      # callback for the call that ends the __main__ slice
+        self.mw_class_of = {}       # local name -> middleware class of the object it was last bound to
+        self.last_proto = None
+        self.used = set()           # names the translated text reads
 
     def fresh(self, base):
         self.tmp += 1
@@ -221,6 +225,7 @@ class W(Fn):
             if isinstance(v, str): return coq_str(v), "str"
             bad(e, "constant")
         if isinstance(e, ast.Name):
+            self.used.add(e.id)
             if e.id in self.narrow: return self.narrow[e.id]
             if e.id in self.env: return e.id, self.env[e.id]
             bad(e, "unknown name")
@@ -265,17 +270,11 @@ class W(Fn):
         bad(e, "expression")
 
     def ifexp(self, e):
-        types = []
-        def side(x):
-            def f():
-                term, t = self.tx(x)
-                types.append(t); return (term, t)
-            return f
         box = {}
         def then_fn():
-            box["t"] = side(e.body)(); return "THEN__"
+            box["t"] = self.tx(e.body); return "THEN__"
         def else_fn():
-            box["e"] = side(e.orelse)(); return "ELSE__"
+            box["e"] = self.tx(e.orelse); return "ELSE__"
         skeleton = self.branch(e.test, then_fn, else_fn)
         (a, ta), (b, tb) = box["t"], box["e"]
         if ta == "none" and tb == "none": t = "none"
@@ -355,6 +354,7 @@ class W(Fn):
                     else: bad(e, "missing argument %s" % n)
                 return "(Mw_%s %s)" % (f.id, " ".join(terms)), "mwkind"
             if f.id == CHAIN_CLASS:
+                if not self.spec.get("allow_chain"): bad(e, "the chain is built outside the top level of %s" % SERVER_FUNC)
                 info = g.ctx.methods[(CHAIN_CLASS, "__init__")]
                 args = self.bind_args(e, [n for n, _ in info["params"]], f.id)
                 if args is None or len(args) != len(info["params"]): bad(e, "arguments of %s" % f.id)
@@ -362,7 +362,7 @@ class W(Fn):
                 for n, t in info["params"]:
                     a = args[n]
                     if not isinstance(a, ast.Name): bad(e, "the chain must be built over a list variable")
-                    terms.append(self.coerce(a, t)); self.escaped.add(a.id)
+                    terms.append(self.coerce(a, t)); self.escaped[a.id] = min(e.lineno, self.escaped.get(a.id, e.lineno))
                 return "(%s %s)" % (info["name"], " ".join(terms)), ("obj", CHAIN_CLASS)
             if f.id in PROTO:
                 _, con, names, roles = PROTO[f.id]
@@ -567,7 +567,8 @@ class W(Fn):
                 name, m = c.func.value.id, c.func.attr
                 t = self.env.get(name) if name not in self.narrow else None
                 if isinstance(t, tuple) and t[0] == "list" and m == "append" and len(c.args) == 1 and not c.keywords:
-                    if name in self.escaped: bad(s, "append to a list that is already shared with an object (aliasing)")
+                    if name in self.escaped and (s.lineno >= self.escaped[name] or kc is not None):
+                        bad(s, "append to a list that is already shared with an object (aliasing)")
                     x, et = self.tx(c.args[0])
                     if not compat(et, t[1]): bad(s, "append of a %s to a list of %s" % (et, t[1]))
                     if t[1] == "?": self.env[name] = ("list", et)
@@ -577,7 +578,8 @@ class W(Fn):
                     if cls is None: bad(s, "method call on a middleware object of unknown class")
                     if m in g.mw[cls]["asyncm"]: bad(s, "coroutine method %s.%s called without await: it never runs" % (cls, m))
                     if m not in g.mw[cls]["sync"]: bad(s, "%s has no plain parameterless method %s" % (cls, m))
-                    return "(let effects__ := effects__ ++ [EffCall %s \"%s\"] in %s)" % (name, m, self.block(rest, k, kc))
+                    if kc is not None: bad(s, "effect inside a loop")
+                    return "(let effects__ := effects__ ++ [EffCall %s \"%s\"%%string] in %s)" % (name, m, self.block(rest, k, kc))
             bad(s, "expression statement")
         if isinstance(s, ast.If):
             after = self.block(rest, k, kc)
@@ -593,16 +595,21 @@ class W(Fn):
             if s.orelse or not isinstance(s.target, ast.Name): bad(s, "for form")
             self.check_name(s.target, s.target.id)
             it, t = self.tx(s.iter)
+            return self.for_loop(s, it, t, rest, k, kc)
+        if isinstance(s, ast.Return):
+            v = "tt" if s.value is None else self.coerce(s.value, self.ret_type)
+            return "(Ok %s)" % v if self.may_raise else v
+        bad(s, "statement")
+
+    def for_loop(self, s, it, t, rest, k, kc):
+        """the loop body is translated with kc = the recursive call (py2coq.Fn.block): `kc is not None` means "inside a loop" """
+        if True:
             if is_opt(t) and isinstance(t[1], tuple) and t[1][0] == "list":
                 v = self.fresh("it")
                 self.env[v] = t[1]
                 s2 = copy.copy(s); s2.iter = ast.copy_location(ast.Name(id=v, ctx=ast.Load()), s.iter)
                 return "(match %s with Some %s => %s | None => %s end)" % (it, v, Fn.block(self, [s2] + rest, k, kc), self.do_raise(s, "TypeError"))
             return Fn.block(self, [s] + rest, k, kc)
-        if isinstance(s, ast.Return):
-            v = "tt" if s.value is None else self.coerce(s.value, self.ret_type)
-            return "(Ok %s)" % v if self.may_raise else v
-        bad(s, "statement")
 
     def assign(self, s, name, value, declared, rest, k, kc):
         g = self.g
@@ -613,6 +620,7 @@ class W(Fn):
             except Untranslatable: rt = None
             if rt == LISTEN[0] and val.func.attr == LISTEN[1]:
                 if not awaited: bad(s, "create_server is not awaited: no listener is created")
+                if kc is not None: bad(s, "effect inside a loop")
                 eff = self.listen(val)
                 self.check_name(s, name); self.env[name] = "unit"; self.narrow.pop(name, None)
                 return "(let effects__ := effects__ ++ [%s] in let %s := tt in %s)" % (eff, name, self.block(rest, k, kc))
@@ -632,8 +640,6 @@ class W(Fn):
         elif name in self.mw_class_of: del self.mw_class_of[name]
         term = self.bind(s, name, term, ty, declared)
         return "(let %s := %s in %s)" % (name, term, self.block(rest, k, kc))
-
-    mw_class_of = None
 
     def listen(self, c):
         pos, kws = LISTEN[2], LISTEN[3]
@@ -683,8 +689,429 @@ class W(Fn):
                 if isinstance(n, ast.Call) and isinstance(n.func, ast.Attribute) and n.func.attr == "append" and isinstance(n.func.value, ast.Name):
                     reb.add(n.func.value.id)
         if loop.target.id in reb: bad(loop, "loop variable reassigned")
-        if "effects__" in self.env and any(isinstance(n, (ast.Call, ast.Await)) for st in loop.body for n in ast.walk(st)): pass
         return sorted(n for n in reb if n in self.env and n != loop.target.id)
 
 def kw_is_star(c):
     return any(k.arg is None for k in c.keywords) or any(isinstance(a, ast.Starred) for a in c.args)
+
+# ------------------------------------------------------------------ server/middleware.py: records, mwkind, the chain class
+def is_doc(s):
+    return isinstance(s, ast.Expr) and isinstance(s.value, ast.Constant) and isinstance(s.value.value, str)
+
+def init_params(g, c, what):
+    init = [m for m in c.body if isinstance(m, ast.FunctionDef) and m.name == "__init__"]
+    if len(init) != 1: raise Untranslatable("%s: no __init__" % what)
+    a = init[0].args
+    if a.vararg or a.kwarg or a.kwonlyargs or a.posonlyargs or not a.args or a.args[0].arg != "self": raise Untranslatable("%s.__init__: parameter form" % what)
+    pos = a.args[1:]
+    defaults = dict(zip([x.arg for x in pos[len(pos) - len(a.defaults):]], a.defaults)) if a.defaults else {}
+    return init[0], pos, defaults
+
+def gen_middleware_module(g):
+    tree = g.tree(MW_FILE)
+    out = []
+    for c in tree.body:
+        if isinstance(c, ast.ClassDef) and any("dataclass" in ast.unparse(d) for d in c.decorator_list):
+            if [ast.unparse(d) for d in c.decorator_list] != ["dataclass"] or c.bases: raise Untranslatable("%s is not a plain dataclass" % c.name)
+            fields, defaults = [], {}
+            for s in c.body:
+                if is_doc(s): continue
+                if isinstance(s, ast.AnnAssign) and isinstance(s.target, ast.Name):
+                    t = annot_type(s.annotation, ASPEC, g.ctx)
+                    if t is None: bad(s, "field annotation")
+                    fields.append((s.target.id, t))
+                    if s.value is not None: defaults[s.target.id] = s.value
+                else: bad(s, "dataclass body (a method could change truthiness or construction)")
+            g.ctx.classes[c.name] = dict(fields=fields, tparams=[])
+            g.records[c.name] = dict(fields=fields, defaults=defaults)
+            out.append(record_text(c.name, [], fields))
+    cons = []
+    for c in tree.body:
+        if not isinstance(c, ast.ClassDef) or c.name in g.records or c.name == CHAIN_CLASS: continue
+        pr = [m for m in c.body if isinstance(m, (ast.FunctionDef, ast.AsyncFunctionDef)) and m.name == "process_request"]
+        if not pr or [ast.unparse(b) for b in c.bases] == ["Protocol"]: continue
+        if c.bases or c.decorator_list: raise Untranslatable("%s: bases / decorators" % c.name)
+        if not isinstance(pr[0], ast.AsyncFunctionDef) or [a.arg for a in pr[0].args.args] != MW_SIGNATURE:
+            raise Untranslatable("%s.process_request does not have the Middleware signature" % c.name)
+        _, pos, defaults = init_params(g, c, c.name)
+        params = []
+        for a in pos:
+            t = annot_type(a.annotation, ASPEC, g.ctx)
+            if t is None: raise Untranslatable("%s.__init__: parameter %s has no translatable annotation" % (c.name, a.arg))
+            params.append((a.arg, t))
+        plain = lambda m: [x.arg for x in m.args.args] == ["self"] and not (m.args.vararg or m.args.kwarg or m.args.kwonlyargs)
+        g.mw[c.name] = dict(params=params, defaults=defaults,
+                            sync=[m.name for m in c.body if isinstance(m, ast.FunctionDef) and plain(m) and not m.decorator_list],
+                            asyncm=[m.name for m in c.body if isinstance(m, ast.AsyncFunctionDef)])
+        cons.append("| Mw_%s%s" % (c.name, "".join(" (%s : %s)" % (n, ctype(t)) for n, t in params)))
+    if not cons: raise Untranslatable("no middleware class found in %s" % MW_FILE)
+    out.append("Inductive mwkind : Type :=\n%s.\n" % "\n".join(cons))
+    names = list(g.mw)
+    out.append("(* the class of a middleware object *)\nInductive mwclass : Type := %s.\n" % " | ".join("K_" + n for n in names)
+               + "Definition class_of (m : mwkind) : mwclass :=\n  match m with %s end.\n" % " | ".join(
+                   "Mw_%s%s => K_%s" % (n, " _" * len(g.mw[n]["params"]), n) for n in names)
+               + "Definition mwclass_eqb (a b : mwclass) : bool :=\n  match a, b with %s%s end.\n" % (
+                   " | ".join("K_%s, K_%s => true" % (n, n) for n in names), " | _, _ => false" if len(names) > 1 else ""))
+    chain = class_node(tree, CHAIN_CLASS)
+    if not any(isinstance(m, ast.AsyncFunctionDef) and m.name == "process_request" and [a.arg for a in m.args.args] == MW_SIGNATURE for m in chain.body):
+        raise Untranslatable("%s.process_request does not have the Middleware signature" % CHAIN_CLASS)
+    out.append(py2coq_mw.gen_init_class(g.ctx, dict(file=MW_FILE, kind="init", cls=CHAIN_CLASS, annot=ANNOT, methods=[]), tree))
+    fields = g.ctx.classes[CHAIN_CLASS]["fields"]
+    if len(fields) != 1 or fields[0][1] != ("list", "mwkind"): raise Untranslatable("%s does not just keep the list it is given" % CHAIN_CLASS)
+    return "\n".join(out)
+
+def check_protocol_classes(g):
+    g.proto_optional = {}
+    for cls, (rel, _, names, _) in PROTO.items():
+        c = class_node(g.tree(rel), cls)
+        _, pos, defaults = init_params(g, c, cls)
+        if [a.arg for a in pos] != names: raise Untranslatable("%s.__init__ parameters are %s, the table says %s" % (cls, [a.arg for a in pos], names))
+        for n, d in defaults.items():
+            if not (isinstance(d, ast.Constant) and d.value is None): raise Untranslatable("%s.__init__: default of %s is not None" % (cls, n))
+        g.proto_optional[cls] = set(defaults)
+
+# ------------------------------------------------------------------ server/config.py
+def attr_reads(nodes, base):
+    return {n.attr for st in nodes for n in ast.walk(st) if isinstance(n, ast.Attribute) and isinstance(n.value, ast.Name) and n.value.id == base}
+
+def gen_config(g, reads):
+    tree = g.tree(CONFIG_FILE)
+    c = class_node(tree, CONFIG_CLASS)
+    if [ast.unparse(d) for d in c.decorator_list] != ["dataclass"] or c.bases: raise Untranslatable("%s is not a plain dataclass" % CONFIG_CLASS)
+    declared = [(s.target.id, s.annotation) for s in c.body if isinstance(s, ast.AnnAssign) and isinstance(s.target, ast.Name)]
+    methods = [find_function(tree, CONFIG_CLASS, m) for m in CONFIG_METHODS]
+    for m in methods: reads = reads | attr_reads(m.body, "self")
+    fields = []
+    for n, a in declared:
+        if n in reads:
+            t = annot_type(a, ASPEC, g.ctx)
+            if t is None: raise Untranslatable("%s.%s: annotation %s outside the table" % (CONFIG_CLASS, n, ast.unparse(a)))
+            fields.append((n, t))
+    g.ctx.classes[CONFIG_CLASS] = dict(fields=fields, tparams=[])
+    out = ["(* the fields of %s that the translated code reads *)\n" % CONFIG_CLASS + record_text(CONFIG_CLASS, [], fields)]
+    for m in methods:
+        a = m.args
+        if [x.arg for x in a.args] != ["self"] or a.vararg or a.kwarg or a.kwonlyargs or m.decorator_list or isinstance(m, ast.AsyncFunctionDef):
+            raise Untranslatable("%s.%s: signature" % (CONFIG_CLASS, m.name))
+        ret = annot_type(m.returns, ASPEC, g.ctx) if m.returns is not None else None
+        if ret is None: raise Untranslatable("%s.%s: return annotation" % (CONFIG_CLASS, m.name))
+        for may_raise in (False, True):
+            w = W(dict(name="gen_" + m.name, ret_type=ret, may_raise=may_raise), m, g)
+            w.env["self"] = ("obj", CONFIG_CLASS)
+            try: body = w.block(copy.deepcopy(m.body), "FALLTHROUGH__")
+            except Raises:
+                if may_raise: raise
+                continue
+            break
+        if "FALLTHROUGH__" in body: raise Untranslatable("%s: control can fall off the end" % m.name)
+        g.methods[(CONFIG_CLASS, m.name)] = dict(name="gen_" + m.name, ret=ret, may_raise=may_raise)
+        rt = "res %s" % ctype(ret) if may_raise else ctype(ret)
+        out.append("Definition gen_%s (self : py_%s) : %s :=\n  %s.\n" % (m.name, CONFIG_CLASS, rt, body))
+    return "\n".join(out)
+
+# ------------------------------------------------------------------ server/server.py: start_server
+def pure_expr(e):
+    """an expression without calls (except any(generator)): safe to re-read as a definition"""
+    for n in ast.walk(e):
+        if isinstance(n, ast.Call) and not (isinstance(n.func, ast.Name) and n.func.id == "any" and len(n.args) == 1 and isinstance(n.args[0], ast.GeneratorExp)):
+            return False
+        if isinstance(n, (ast.Await, ast.Lambda, ast.NamedExpr, ast.Yield, ast.YieldFrom, ast.Subscript, ast.Starred)): return False
+    return True
+
+def has_call(node, attr):
+    return [n for n in ast.walk(node) if isinstance(n, ast.Call) and isinstance(n.func, ast.Attribute) and n.func.attr == attr]
+
+def analyse_start(g):
+    fn = find_function(g.tree(SERVER_FILE), None, SERVER_FUNC)
+    if not isinstance(fn, ast.AsyncFunctionDef): raise Untranslatable("%s is not a coroutine function" % SERVER_FUNC)
+    a = fn.args
+    if a.vararg or a.kwarg or a.kwonlyargs or a.posonlyargs: raise Untranslatable("%s: parameter form" % SERVER_FUNC)
+    body = fn.body
+    chains = [(i, s) for i, s in enumerate(body) if any(isinstance(n, ast.Call) and isinstance(n.func, ast.Name) and n.func.id == CHAIN_CLASS for n in ast.walk(s))]
+    if len(chains) != 1 or not isinstance(chains[0][1], (ast.Assign, ast.AnnAssign)):
+        raise Untranslatable("expected exactly one top-level assignment that builds a %s" % CHAIN_CLASS)
+    ci, cs = chains[0]
+    tgt = cs.targets[0] if isinstance(cs, ast.Assign) and len(cs.targets) == 1 else getattr(cs, "target", None)
+    if not isinstance(tgt, ast.Name): bad(cs, "chain assignment target")
+    ccalls = [n for n in ast.walk(cs) if isinstance(n, ast.Call) and isinstance(n.func, ast.Name) and n.func.id == CHAIN_CLASS]
+    if len(ccalls) != 1 or len(ccalls[0].args) != 1 or ccalls[0].keywords or not isinstance(ccalls[0].args[0], ast.Name): bad(cs, "chain constructor call")
+    L, CH = ccalls[0].args[0].id, tgt.id
+    inits = [i for i, s in enumerate(body) if isinstance(s, (ast.Assign, ast.AnnAssign)) and L in stored_names(s)]
+    if len(inits) != 1 or sum(1 for n in ast.walk(fn) if isinstance(n, ast.Name) and n.id == L and isinstance(n.ctx, (ast.Store, ast.Del))) != 1:
+        raise Untranslatable("the middleware list %s is not bound exactly once, at top level" % L)
+    i0 = inits[0]
+    v0 = body[i0].value
+    if not (isinstance(v0, ast.List) and not v0.elts): bad(body[i0], "the middleware list does not start empty")
+    listens = [i for i, s in enumerate(body) if has_call(s, LISTEN[1])]
+    if len(listens) != 1 or not isinstance(body[listens[0]], ast.If): raise Untranslatable("expected one top-level `if` containing the create_server calls")
+    li = listens[0]
+    if not (i0 < ci < li): raise Untranslatable("order of list creation, chain construction and create_server")
+    return dict(fn=fn, body=body, i0=i0, ci=ci, li=li, L=L, CH=CH, params=[x.arg for x in a.args],
+                defaults=dict(zip([x.arg for x in a.args[len(a.args) - len(a.defaults):]], a.defaults)),
+                annots={x.arg: x.annotation for x in a.args})
+
+def slice_inputs(g, A, stmts):
+    """-> (derived statements, parameters read, opaque local inputs [(name, type)])"""
+    fn, prefix = A["fn"], A["body"][:A["i0"]]
+    derived, inputs_p, inputs_l, seen = [], [], [], set()
+    def need(names):
+        for n in names:
+            if n in seen: continue
+            seen.add(n)
+            if n in A["params"]: inputs_p.append(n); continue
+            stores = [x for st in prefix for x in ast.walk(st) if isinstance(x, ast.Name) and x.id == n and isinstance(x.ctx, (ast.Store, ast.Del))]
+            if not stores: continue          # a module-level name (class, function, module)
+            tops = [st for st in prefix if isinstance(st, (ast.Assign, ast.AnnAssign)) and st.value is not None and
+                    [t for t in (st.targets if isinstance(st, ast.Assign) else [st.target]) if isinstance(t, ast.Name) and t.id == n]]
+            total = sum(1 for x in ast.walk(fn) if isinstance(x, ast.Name) and x.id == n and isinstance(x.ctx, (ast.Store, ast.Del)))
+            if len(tops) == 1 and total == 1 and pure_expr(tops[0].value) and (isinstance(tops[0], ast.AnnAssign) or len(tops[0].targets) == 1):
+                derived.append(tops[0]); need(free_names([tops[0]])); continue
+            none = any(isinstance(x, (ast.Assign, ast.AnnAssign)) and isinstance(x.value, ast.Constant) and x.value.value is None and
+                       any(isinstance(t, ast.Name) and t.id == n for t in (x.targets if isinstance(x, ast.Assign) else [x.target]))
+                       for st in prefix for x in ast.walk(st))
+            inputs_l.append((n, ("opt", "T_" + n) if none else "T_" + n, min(x.lineno for x in stores)))
+    need(free_names(stmts))
+    derived.sort(key=lambda s: s.lineno)
+    inputs_p.sort(key=A["params"].index)
+    inputs_l.sort(key=lambda x: x[2])
+    return derived, inputs_p, [(n, t) for n, t, _ in inputs_l]
+
+GENERIC = {"H": "H_handler", "C": "C_chain", "U": "U_upload", "X": "X_tlsctx", "S": "S_sslctx", "P": "P_proto"}
+
+def translate_slice(g, A, upto, name):
+    stmts = copy.deepcopy(A["body"][A["i0"]:upto + 1])
+    derived, inputs_p, inputs_l = slice_inputs(g, A, stmts)
+    w = W(dict(name=name, allow_chain=True), A["fn"], g)
+    ptypes = []
+    for p in inputs_p:
+        t = annot_type(A["annots"][p], ASPEC, g.ctx)
+        if t is None: raise Untranslatable("%s: parameter %s has no translatable annotation" % (SERVER_FUNC, p))
+        w.check_name(A["fn"], p); w.env[p] = t; ptypes.append((p, t))
+    for n, t in inputs_l:
+        w.check_name(A["fn"], n); w.env[n] = t
+    body = w.block(copy.deepcopy(derived) + stmts, "(%s, %s, effects__)" % (A["L"], A["CH"]))
+    generics = []
+    def resolved(r):
+        if r in w.roles: return ctype(w.roles[r])
+        if GENERIC[r] not in generics: generics.append(GENERIC[r])
+        return GENERIC[r]
+    listened = bool(w.rows) or bool(w.roles)
+    for r in "HCUXS":
+        if "ROLE_%s__" % r in body: body = body.replace("ROLE_%s__" % r, resolved(r))
+    P = "(proto %s %s %s %s)" % tuple(resolved(r) for r in "HCUX") if listened else resolved("P")
+    efft = "(effect mwkind %s %s)" % (P, resolved("S"))
+    tps = []
+    for n, t in inputs_l:
+        tps.append(t[1] if is_opt(t) else t)
+    for _, _, rt in w.attr_params: tps.append(rt)
+    tps += generics
+    params = [(n, ("fun", bt, rt)) for n, bt, rt in w.attr_params] + ptypes + inputs_l
+    ret = "list mwkind * option py_%s * list %s" % (CHAIN_CLASS, efft)
+    text = "Definition %s%s %s\n  : %s :=\n  let effects__ := (@nil %s) in\n  %s.\n" % (
+        name, (" {" + " ".join(tps) + " : Type}") if tps else "", " ".join("(%s : %s)" % (n, ctype(t)) for n, t in params), ret, efft, body)
+    return w, text, dict(tparams=tps, generics=generics, params=params, ptypes=ptypes, derived=derived, inputs_l=inputs_l, stmts=stmts)
+
+def parents(root):
+    out = {}
+    for n in ast.walk(root):
+        for c in ast.iter_child_nodes(n): out[c] = n
+    return out
+
+def frame_checks(g, A, w, info):
+    fn, body = A["fn"], A["body"]
+    prefix, suffix = body[:A["i0"]], body[A["li"] + 1:]
+    in_slice = set()
+    for st in body[A["i0"]:A["li"] + 1]: in_slice |= stored_names(st)
+    # 1. names bound in the slice do not occur before it; neither they nor what the lambdas capture occur after it
+    for st in prefix:
+        if st in info["derived"]: continue
+        for n in ast.walk(st):
+            if isinstance(n, ast.Name) and n.id in in_slice: bad(n, "%s is used before the wiring slice" % n.id)
+    captured = {x for _, names in w.lambdas for x in names}
+    for st in suffix:
+        for n in ast.walk(st):
+            if isinstance(n, ast.Name) and n.id in ({A["L"], A["CH"]} | captured | set(w.mw_class_of)):
+                bad(n, "%s occurs after the wiring slice (a lambda sees the variable, an object can be changed)" % n.id)
+    # ... and inside the slice, after a lambda, the variables it mentions are not assigned
+    for line, names in w.lambdas:
+        for st in body[A["i0"]:A["li"] + 1]:
+            for n in ast.walk(st):
+                if isinstance(n, ast.Name) and isinstance(n.ctx, (ast.Store, ast.Del)) and n.id in names and n.lineno >= line:
+                    bad(n, "%s is assigned after a lambda that mentions it" % n.id)
+    # 2. parameters and derived locals are never rebound; parameters are only read
+    wiring = [p for p, _ in info["ptypes"]]
+    dnames = [t.id for st in info["derived"] for t in (st.targets if isinstance(st, ast.Assign) else [st.target])]
+    for n in ast.walk(fn):
+        if isinstance(n, ast.Name) and isinstance(n.ctx, (ast.Store, ast.Del)) and n.id in wiring: bad(n, "parameter %s is rebound" % n.id)
+        if isinstance(n, (ast.Global, ast.Nonlocal)) and set(n.names) & set(wiring + dnames + list(in_slice)): bad(n, "global / nonlocal declaration")
+    par = parents(fn)
+    cfgm = {m.name: m for m in class_node(g.tree(CONFIG_FILE), CONFIG_CLASS).body if isinstance(m, (ast.FunctionDef, ast.AsyncFunctionDef))}
+    for st in prefix + suffix:
+        if st in info["derived"]: continue
+        for n in ast.walk(st):
+            if not (isinstance(n, ast.Name) and n.id in wiring): continue
+            p = par[n]
+            if isinstance(p, ast.Attribute) and isinstance(p.ctx, ast.Load):
+                pp = par[p]
+                if isinstance(pp, ast.Call) and pp.func is p:
+                    t = info_type(info, n.id)
+                    m = cfgm.get(p.attr) if t == ("obj", CONFIG_CLASS) else None
+                    if m is None: bad(pp, "method call on the parameter %s" % n.id)
+                    for x in ast.walk(m):
+                        if isinstance(x, ast.Attribute) and isinstance(x.ctx, (ast.Store, ast.Del)): bad(pp, "%s.%s assigns an attribute" % (CONFIG_CLASS, p.attr))
+                        if isinstance(x, ast.Call) and dotted(x.func) in ("setattr", "delattr", "object.__setattr__", "vars"): bad(pp, "%s.%s may change the object" % (CONFIG_CLASS, p.attr))
+                continue
+            if isinstance(p, (ast.Compare, ast.BoolOp, ast.UnaryOp)) or (isinstance(p, (ast.If, ast.IfExp, ast.While)) and p.test is n): continue
+            bad(p, "parameter %s escapes (only reads and tests are allowed outside the slice)" % n.id)
+    # 3. every create_server call of the function was translated, once
+    sites = sorted(c.lineno for c in has_call(fn, LISTEN[1]))
+    if sites != sorted(w.rows): raise Untranslatable("create_server calls at lines %s, translated %s" % (sites, sorted(w.rows)))
+
+def info_type(info, name):
+    return dict(info["ptypes"]).get(name)
+
+# ------------------------------------------------------------------ __main__.py: the call of start_server
+def find_call_block(stmts, funcs):
+    for i, s in enumerate(stmts):
+        if isinstance(s, ast.Expr):
+            v = s.value.value if isinstance(s.value, ast.Await) else s.value
+            if isinstance(v, ast.Call) and isinstance(v.func, ast.Name) and v.func.id == SERVER_FUNC: return stmts, i, funcs
+        subs = [getattr(s, f) for f in ("body", "orelse", "finalbody") if isinstance(getattr(s, f, None), list)]
+        subs += [h.body for h in getattr(s, "handlers", [])]
+        f2 = funcs + [s] if isinstance(s, (ast.FunctionDef, ast.AsyncFunctionDef)) else funcs
+        for sub in subs:
+            if sub and isinstance(sub[0], ast.stmt):
+                r = find_call_block(sub, f2)
+                if r: return r
+    return None
+
+def serve_slice(g, A, wnames, cfg_params):
+    """(AST only) the block that ends with the call of start_server, cut at the first statement that binds a name feeding a
+    wiring parameter; a bare name passed for a ServerConfig parameter is an input of the slice"""
+    n_calls = 0
+    for d, _, fs in os.walk(SRC):
+        for f in sorted(fs):
+            if f.endswith(".py"):
+                rel = os.path.relpath(os.path.join(d, f), SRC)
+                for n in ast.walk(g.tree(rel)):
+                    if isinstance(n, ast.Call) and (dotted(n.func) or "").split(".")[-1] == SERVER_FUNC: n_calls += 1
+    r = find_call_block(g.tree(MAIN_FILE).body, [])
+    if n_calls != 1 or r is None: raise Untranslatable("expected exactly one call of %s, as an awaited statement in %s (found %d calls)" % (SERVER_FUNC, MAIN_FILE, n_calls))
+    stmts, idx, funcs = r
+    call = stmts[idx].value.value if isinstance(stmts[idx].value, ast.Await) else stmts[idx].value
+    bound = W(dict(name="probe"), call, g).bind_args(call, A["params"], SERVER_FUNC)
+    if bound is None: bad(call, "unknown keyword of %s" % SERVER_FUNC)
+    cfg_inputs = [bound[p].id for p in cfg_params if p in bound and isinstance(bound[p], ast.Name)]
+    needed = {n.id for p in wnames if p in bound for n in ast.walk(bound[p]) if isinstance(n, ast.Name)} - set(cfg_inputs)
+    start = idx
+    for i in range(idx - 1, -1, -1):
+        if stored_names(stmts[i]) & needed:
+            start = i
+            needed |= {n.id for n in ast.walk(stmts[i]) if isinstance(n, ast.Name) and isinstance(n.ctx, ast.Load)} - set(cfg_inputs)
+    sl = stmts[start:idx + 1]
+    for c in cfg_inputs:
+        for s in sl:
+            if c in stored_names(s): bad(s, "%s is rebound between the first sliced statement and the call" % c)
+    return dict(stmts=stmts, start=start, idx=idx, funcs=funcs, call=call, sl=sl, cfg_inputs=cfg_inputs)
+
+def translate_serve(g, A, wiring, S):
+    stmts, start, funcs, call = S["stmts"], S["start"], S["funcs"], S["call"]
+    sl = copy.deepcopy(S["sl"])
+    wnames = [p for p, _ in wiring]
+    w = W(dict(name="gen_serve_args", may_raise=True), funcs[-1] if funcs else g.tree(MAIN_FILE), g)
+    cfg_inputs = {c: ("obj", CONFIG_CLASS) for c in S["cfg_inputs"]}
+    for n, t in cfg_inputs.items(): w.check_name(call, n); w.env[n] = t
+    closure = []
+    for f in funcs:
+        for a in f.args.args + f.args.kwonlyargs:
+            t = annot_type(a.annotation, ASPEC, g.ctx) if a.annotation is not None else None
+            if t is not None and a.arg not in w.env and a.arg in free_names(sl) and not any(a.arg in stored_names(s) for s in stmts[:start]):
+                w.check_name(call, a.arg); w.env[a.arg] = t; closure.append((a.arg, t))
+    def final(self_w, c):
+        b = self_w.bind_args(c, A["params"], SERVER_FUNC)
+        terms = []
+        for p, t in wiring:
+            if p in b: terms.append(self_w.coerce(b[p], t))
+            elif p in A["defaults"]: terms.append(self_w.coerce(A["defaults"][p], t))
+            else: bad(c, "no argument for %s" % p)
+        for p, e in b.items():
+            if p not in wnames and not safe_arg(e):
+                try: self_w.tx(e)            # a translatable expression cannot raise either (raising calls are refused inside expressions)
+                except Untranslatable: bad(e, "argument of %s that may raise" % SERVER_FUNC)
+        return "(Ok (%s))" % ", ".join(terms)
+    w.final = final
+    body = w.block(sl, "FALLTHROUGH__")
+    if "FALLTHROUGH__" in body: raise Untranslatable("the sliced block of %s does not end with the call" % MAIN_FILE)
+    params = list(cfg_inputs.items()) + [(n, t) for n, t in closure if n in w.used]
+    text = "Definition gen_serve_args %s\n  : res (%s) :=\n  %s.\n" % (" ".join("(%s : %s)" % (n, ctype(t)) for n, t in params),
+                                                                    " * ".join(ctype(t) for _, t in wiring), body)
+    return text, sl, list(cfg_inputs)
+
+# ------------------------------------------------------------------ driver
+HEADER = """(* GENERATED by /verif/translate/py2coq_wiring.py from /repo/src/nauyaca (server/server.py start_server, server/config.py,
+   server/middleware.py, __main__.py) - do not edit *)
+From Coq Require Import List NArith ZArith QArith Bool String.
+From NV Require Import Prelude.Str Prelude.Res Equiv.WiringGlue.
+Import ListNotations.
+Open Scope list_scope.
+
+"""
+
+def cstring(s):
+    if s is None: return "None"
+    if '"' in s or any(ord(c) < 32 or ord(c) > 126 for c in s): raise Untranslatable("source text outside printable ASCII in the factory table")
+    return '"%s"%%string' % s
+
+def main(out_path):
+    g = G()
+    check_protocol_classes(g)
+    chunks = [HEADER, gen_middleware_module(g), "\n"]
+    A = analyse_start(g)
+    cfg_params = [p for p in A["params"] if A["annots"][p] is not None and ast.unparse(A["annots"][p]) == CONFIG_CLASS]
+    # which ServerConfig fields the slices read (the record has exactly those)
+    reads = set()
+    all_stmts = A["body"]
+    for p in cfg_params: reads |= attr_reads(all_stmts[A["i0"]:A["li"] + 1], p)
+    probe_stmts = copy.deepcopy(all_stmts[A["i0"]:A["li"] + 1])
+    g.ctx.classes[CONFIG_CLASS] = dict(fields=[], tparams=[])
+    derived, _, _ = slice_inputs(g, A, probe_stmts)
+    for p in cfg_params: reads |= attr_reads(derived, p)
+    _, wnames, _ = slice_inputs(g, A, probe_stmts)
+    S = serve_slice(g, A, wnames, cfg_params)
+    for c in S["cfg_inputs"]: reads |= attr_reads(S["sl"], c)
+    chunks += [gen_config(g, reads), "\n"]
+    w1, t1, i1 = translate_slice(g, A, A["ci"], "gen_setup")
+    w2, t2, i2 = translate_slice(g, A, A["li"], "gen_start")
+    frame_checks(g, A, w2, i2)
+    if w1.rows: raise Untranslatable("create_server before the chain is built")
+    chunks += ["(* %s, lines %d-%d: the middleware list, the chain *)\n" % (SERVER_FILE, A["body"][A["i0"]].lineno, A["body"][A["ci"]].end_lineno), t1, "\n"]
+    names1 = " ".join(n for n, _ in i1["params"])
+    bind1 = " ".join("(%s : %s)" % (n, ctype(t)) for n, t in i1["params"])
+    at1 = "@gen_setup " + " ".join("unit" for _ in i1["tparams"]) if i1["tparams"] else "gen_setup"
+    chunks.append("Definition gen_middlewares %s : list mwkind := fst (fst (%s %s)).\n" % (bind1, at1, names1))
+    chunks.append("Definition gen_chain %s : option py_%s := snd (fst (%s %s)).\n" % (bind1, CHAIN_CLASS, at1, names1))
+    chunks.append("Definition gen_setup_effects%s %s := snd (%s %s).\n\n" % (
+        (" {" + " ".join(i1["tparams"]) + " : Type}") if i1["tparams"] else "", bind1,
+        ("@gen_setup " + " ".join(i1["tparams"])) if i1["tparams"] else "gen_setup", names1))
+    chunks += ["(* %s, lines %d-%d: the same statements continued to the create_server calls *)\n" % (SERVER_FILE, A["body"][A["i0"]].lineno, A["body"][A["li"]].end_lineno), t2, "\n"]
+    t3, sl, _ = translate_serve(g, A, i2["ptypes"], S)
+    chunks += ["(* %s, lines %d-%d: the arguments start_server is called with (its wiring parameters: %s) *)\n" % (
+        MAIN_FILE, sl[0].lineno, sl[-1].end_lineno, ", ".join(p for p, _ in i2["ptypes"])), t3, "\n"]
+    rows = [w2.rows[k] for k in sorted(w2.rows)]
+    chunks.append("(* one row per loop.create_server call of %s *)\nDefinition factories : list factory_row := [\n%s\n].\n" % (SERVER_FUNC, ";\n".join(
+        "  mk_factory_row %s %s %s [%s] %s %s %s" % (cstring(r["site"]), cstring(r["cond"]), str(r["branch"]).lower(), "; ".join(cstring(c) for c in r["callables"]),
+                                                   cstring(r["handler"]), "(Some %s)" % cstring(r["middleware"]) if r["middleware"] is not None else "None",
+                                                   "(Some %s)" % cstring(r["upload"]) if r["upload"] is not None else "None") for r in rows)))
+    chunks.append("Definition chain_var : string := %s.\nDefinition list_var : string := %s.\n" % (cstring(A["CH"]), cstring(A["L"])))
+    chunks.append("Definition wiring_params : list string := [%s].\n" % "; ".join(cstring(p) for p, _ in i2["ptypes"]))
+    open(out_path, "w").write("".join(chunks))
+    print("py2coq_wiring: %d records, %d middleware classes, %d config methods, 2 slices of %s, 1 of %s, %d factories" % (
+        len(g.records) + 2, len(g.mw), len(CONFIG_METHODS), SERVER_FUNC, MAIN_FILE, len(rows)))
+
+if __name__ == "__main__":
+    try:
+        main(sys.argv[1] if len(sys.argv) > 1 else os.path.join(os.path.dirname(os.path.dirname(os.path.abspath(__file__))), "coq", "Gen", "WiringGen.v"))
+    except Untranslatable as e:
+        print("UNTRANSLATABLE:", e); sys.exit(2)
+    except Exception as e:      # fail closed: a source shape the translator did not foresee is refused, never guessed at
+        print("UNTRANSLATABLE: internal error %s: %s" % (type(e).__name__, e)); sys.exit(2)
